@@ -1,5 +1,50 @@
-import PyAirtouch.Model.Sock
-/-! placeholder until the proof files are merged -/
+import PyAirtouch.Lemmas.SockQueue
+/-!
+# C02 — retry discipline
+
+For every history of the model `PyAirtouch.Model.Sock` whose sends carry pairwise distinct
+identities (`ReachableWF`): no message is put on a transport at or after its expiry, and no message
+is attempted more than `1 + retries` times.  The statements use the monitors of
+`PyAirtouch.Spec.Trace` that also judge recordings of the implementation.
+-/
 namespace PyAirtouch.Props.C02
-theorem C02_placeholder : True := trivial
+open PyAirtouch.Model.Sock PyAirtouch.Spec.Trace PyAirtouch.Lemmas.Sock
+
+/-- every write attempt for a message happens strictly before the expiry fixed at acceptance -/
+theorem C02_never_at_or_after_expiry {s : Sys} :
+    ReachableWF s → neverAtOrAfterExpiry s.core.trace = true := by
+  intro h
+  obtain ⟨u, hinv⟩ := inv_of_reachableWF h
+  simp only [neverAtOrAfterExpiry, List.all_eq_true]
+  intro ev hev
+  have hw : WriteOk s.core.trace ev := hinv.writes ev hev
+  cases ev <;> simp only [WriteOk] at hw ⊢
+  all_goals
+    obtain ⟨t0, e, r, ok, h1, h2⟩ := hw
+    simp [h1, h2]
+
+/-- a message with life 8 is written at time 5 (connection up), then a second one is accepted and
+    written; the hypothesis is satisfiable and the monitor sees real write events -/
+example : ∃ s, ReachableWF s ∧ writeAttempts s.core.trace 1 = 1 ∧ writeAttempts s.core.trace 2 = 1 :=
+  ⟨_, ⟨[.apiOpen, .apiSend 1 2 8 true, .run 1 .go, .run 1 .openOk, .advance 5, .run 1 .go, .apiSend 2 0 8 true],
+    by decide, rfl⟩, by decide, by decide⟩
+
+/-- a message is attempted at most once plus its number of retries -/
+theorem C02_attempts_bounded {s : Sys} : ReachableWF s → attemptsBounded s.core.trace = true := by
+  intro h
+  obtain ⟨u, hinv⟩ := inv_of_reachableWF h
+  simp only [attemptsBounded, List.all_eq_true]
+  intro ev hev
+  cases ev <;> simp only [decide_eq_true_eq]
+  rename_i sid t e r ok
+  exact hinv.bounded sid t e r ok (hinv.accepts sid t e r ok hev)
+
+/-- one retry allowed; the write faults, `drain()` raises, the entry is re-queued, a new connection
+    is opened and the message is written again: two attempts, the bound `1 + 1` is attained -/
+example : ∃ s, ReachableWF s ∧ writeAttempts s.core.trace 1 = 2 ∧
+    acceptedAt s.core.trace 1 = some (0, 240, 1, true) :=
+  ⟨_, ⟨[.apiOpen, .run 1 .go, .run 1 .openOk, .envFailWrites 0 true, .apiSend 1 1 240 true,
+        .envLostRan 0, .run 2 .drainErr, .run 2 .go, .run 3 .go, .run 3 .openOk, .run 3 .go],
+    by decide, rfl⟩, by decide, by decide⟩
+
 end PyAirtouch.Props.C02
